@@ -23,10 +23,24 @@ HELPERS = {
 
 # callee names that stand for an *arbitrary* function inside a wrapper whose job is to restore
 # the precision whatever the wrapped function does
+# nested callbacks that intentionally leave the precision changed; they are only ever run by the
+# named consumer, which is analysed with that callee treated as *arbitrary* (precision havocked)
+CALLBACK_HELPERS = {
+    'functions.bessel.airyai.<locals>.h': 'hypercomb',
+    'functions.bessel.airybi.<locals>.h': 'hypercomb',
+    'functions.bessel._scorer.<locals>.h': 'hypercomb',
+}
+
 ARBITRARY_CALLEES = {
+    'functions.hypergeometric.hypercomb': ('function',),
+    'ctx_mp.MPContext.sum_accurately': ('terms',),
     'ctx_mp_python.PythonMPContext._wrap_specfun.<locals>.f_wrapped': ('f',),
     'ctx_iv.MPIntervalContext._wrap_specfun.<locals>.f_wrapped': ('f',),
     'ctx_mp.PrecisionManager.__call__.<locals>.g': ('f',),
 }
 
-CONF = dict(setters=SETTERS, helpers=HELPERS, arbitrary_callees=ARBITRARY_CALLEES)
+# calls assumed to return a Python int (so that `ctx.prec += n ... ctx.prec -= n` can be followed)
+INT_RESULTS = {'mag', 'int', 'len', 'max', 'min', 'abs', 'bitcount', 'dps_to_prec', 'prec_to_dps'}
+
+CONF = dict(setters=SETTERS, helpers=HELPERS, arbitrary_callees=ARBITRARY_CALLEES, int_results=INT_RESULTS,
+            callback_helpers=CALLBACK_HELPERS)
